@@ -683,31 +683,54 @@ From F8 Require Import Sess.Demo.
 Definition last_snap (tr : trace) : option snap :=
   match rev tr with st :: _ => st_snap st | [] => None end.
 
+Definition all_new_seqs_of (tr : trace) : list bytes := new_seqs (concat (map st_events tr)).
+
 Definition ctrl_and_seq (tr : trace) : option (option (N * N) * N * N) :=
   match last_snap tr with Some sn => Some (sn_ctrl sn, sn_send sn, sn_recv sn) | None => None end.
 
-(* F20: custom sequence number / no_increment / SequenceReset: put(next_send + 1) but no increment *)
-Definition h_custom : list op := [OStart (demo_init PFile) None; OSend (mkSpec [68] [] [(11, [65]); (55, [66])] 7 false true)].
-Definition h_noinc : list op := [OStart (demo_init PFile) None; OSend (mkSpec [68] [] [(11, [65]); (55, [66])] 0 true true)].
-Definition h_seqreset : list op := [OStart (demo_init PFile) None; OSend (mkSpec [52] [] [(123, [89]); (36, [57])] 0 false true)].
+(* a session right after Session::start (initiator, file persister): the Logon went out as 1 *)
+Definition st0 : sess :=
+  snd (fst (start demo_schema T0 (demo_init PFile) (new_session (demo_init PFile) (p_empty PFile)))).
 
-Lemma c16_control_refuted_lemma :
-  ctrl_and_seq (run_history demo_schema h_custom) = Some (Some (3, 1), 2, 1) /\
-  c16_ok h_custom (run_history demo_schema h_custom) = false /\
-  ctrl_and_seq (run_history demo_schema h_noinc) = Some (Some (3, 1), 2, 1) /\
-  c16_ok h_noinc (run_history demo_schema h_noinc) = false /\
-  ctrl_and_seq (run_history demo_schema h_seqreset) = Some (Some (3, 1), 2, 1) /\
-  c16_ok h_seqreset (run_history demo_schema h_seqreset) = false.
+Definition m_order : msg := mkMsg [68] [] [mkF 1 11 [65]; mkF 2 55 [66]] 0 false true.
+Definition m_custom7 : msg := set_custom 7 m_order.
+Definition m_noinc1 : msg := set_noinc true m_order.
+Definition m_seqreset : msg := mkMsg [52] [] [mkF 1 123 [89]; mkF 2 36 [57]] 0 false true.
+
+Definition ctrl_vs_seq (r : bool * sess * list event) : option (N * N) * N * N :=
+  let s := snd (fst r) in (p_get_ctrl (s_per s), s_next_send s, s_next_recv s).
+
+(* F20 (repaired in /repo by f813a59): the ORIGINAL send_process wrote (next_send + 1, next_recv) even
+   when it then did not increment: control (3, 1) against the session's (2, 1) after a send with a
+   custom sequence number, with no_increment, or of a SequenceReset; the code as it is now writes (2, 1). *)
+Lemma c16_control_orig_refuted_lemma :
+  ctrl_vs_seq (send_process_orig demo_schema T0 st0 m_custom7) = (Some (3, 1), 2, 1) /\
+  ctrl_vs_seq (send_process_orig demo_schema T0 st0 m_noinc1) = (Some (3, 1), 2, 1) /\
+  ctrl_vs_seq (send_process_orig demo_schema T0 st0 m_seqreset) = (Some (3, 1), 2, 1) /\
+  ctrl_vs_seq (send_process demo_schema T0 st0 m_custom7) = (Some (2, 1), 2, 1) /\
+  ctrl_vs_seq (send_process demo_schema T0 st0 m_noinc1) = (Some (2, 1), 2, 1) /\
+  ctrl_vs_seq (send_process demo_schema T0 st0 m_seqreset) = (Some (2, 1), 2, 1).
 Proof. vm_compute. repeat split. Qed.
 
-(* the session's own Logout is sent with no_increment: heartbeat supervisor (test request ignored) *)
+(* what remains true by design of the API: a NEW message sent with a custom sequence number carries that
+   number (7 after 1), so the numbering clause fails although the control record (2, 1) is right *)
+Definition h_custom : list op := [OStart (demo_init PFile) None; OSend (mkSpec [68] [] [(11, [65]); (55, [66])] 7 false true)].
+
+Lemma c16_custom_refuted_lemma :
+  all_new_seqs_of (run_history demo_schema h_custom) = map dec [1; 7] /\
+  ctrl_and_seq (run_history demo_schema h_custom) = Some (Some (2, 1), 2, 1) /\
+  c16_ok h_custom (run_history demo_schema h_custom) = false.
+Proof. vm_compute. repeat split. Qed.
+
+(* the session's own Logout (sent with no_increment by the heartbeat supervisor): since the repair the
+   control record is (4, 2) = the session's numbers and the whole oracle accepts the history *)
 Definition h_supervisor : list op :=
   [OStart (demo_init PFile) None; OIn [demo_logon_in 1];
    OTick (T0 + 40 * NS)%Z; OTick (T0 + 41 * NS)%Z].
 
-Lemma c16_logout_refuted_lemma :
-  ctrl_and_seq (run_history demo_schema h_supervisor) = Some (Some (5, 2), 4, 2) /\
-  c16_ok h_supervisor (run_history demo_schema h_supervisor) = false.
+Lemma c16_logout_ok_lemma :
+  ctrl_and_seq (run_history demo_schema h_supervisor) = Some (Some (4, 2), 4, 2) /\
+  c16_ok h_supervisor (run_history demo_schema h_supervisor) = true.
 Proof. vm_compute. split; reflexivity. Qed.
 
 (* the Reject path of Session::process increments next_recv but does not update the control record *)
@@ -726,7 +749,7 @@ Definition h_plain : list op :=
   [OSend (demo_order [65]); OBatch [demo_order [66]; demo_order [67]; demo_admin [48]];
    OSend (demo_admin [49]); OClock (T0 + 5)%Z; OSend (demo_order [68])].
 
-Definition all_new_seqs (tr : trace) : list bytes := new_seqs (concat (map st_events tr)).
+Definition all_new_seqs (tr : trace) : list bytes := all_new_seqs_of tr.
 
 Lemma c16_nonvacuous_lemma :
   wf_schema demo_schema = true /\ wf_start (demo_init PFile) = true /\ forallb plain_op h_plain = true /\
